@@ -23,6 +23,8 @@ type Member struct {
 	syncReq   *Entry
 	Assign    []byte
 	LastSeen  time.Duration
+	learned   bool // a join response carrying this id was delivered
+	Session   time.Duration
 }
 
 type CommitRec struct {
@@ -103,11 +105,37 @@ func (c *Cluster) holdIfNeeded(e *Entry) {
 		m.joinReq = e
 		m.LastSeen = c.Now()
 		e.memberID = id
+		m.Session = time.Duration(req.SessionTimeoutMS) * time.Millisecond
 		if g.State != "PreparingRebalance" {
 			g.State = "PreparingRebalance"
 		}
 		e.Held = true
 		c.tryCompleteJoin(g)
+		if c.Auto && e.Held {
+			// session expiry of members that do not rejoin (only emulated in auto mode; under the
+			// explorer eviction is an explicit environment event)
+			for oid, om := range g.Members {
+				if om.joinReq != nil || om.Session <= 0 {
+					continue
+				}
+				oid, seen, gid := oid, om.LastSeen, g.ID
+				wait := om.Session - (c.Now() - om.LastSeen)
+				if wait < 0 {
+					wait = 0
+				}
+				time.AfterFunc(wait, func() {
+					c.mu.Lock()
+					g2 := c.Groups[gid]
+					mm := g2.Members[oid]
+					stale := mm != nil && mm.joinReq == nil && mm.LastSeen == seen
+					c.mu.Unlock()
+					if stale {
+						c.Evict(gid, oid)
+						c.autoAnswer()
+					}
+				})
+			}
+		}
 	case *syncgroup.Request:
 		g := c.group(req.GroupID)
 		m := g.Members[req.MemberID]
@@ -232,6 +260,7 @@ func (c *Cluster) respondJoin(e *Entry, req *joingroup.Request, isErr bool, code
 			}
 		}
 		m.joinReq = nil
+		m.learned = true
 		e.Applied = true
 	}
 	c.writeMsg(e, res)
@@ -328,9 +357,18 @@ func (c *Cluster) ForceRebalance(group string) {
 func (c *Cluster) memberConnLost(sc *srvConn) {
 	// a lost connection does not remove the member (the session timeout does); pending join/sync of that connection vanish
 	for _, g := range c.Groups {
-		for _, m := range g.Members {
+		for id, m := range g.Members {
 			if m.joinReq != nil && m.joinReq.sc == sc {
 				m.joinReq = nil
+				if m.JoinedGen == 0 || (m.joinReq == nil && !m.learned) {
+					// the client never learned this member id: the coordinator drops the member
+					// (a broker does so when the rebalance timeout expires)
+					delete(g.Members, id)
+					if len(g.Members) == 0 {
+						g.State = "Empty"
+					}
+					continue
+				}
 			}
 			if m.syncReq != nil && m.syncReq.sc == sc {
 				m.syncReq = nil
